@@ -105,20 +105,32 @@ def c04_2(rep, ix):
     rep.check(not later, R, ix.site(f), "nothing re-populates the returned program's parameter list", key="no repopulate")
 
 
+def value_mapping(fn):
+    """name of the mapping the parameter values are looked up in: `kwargs`, or the local that holds the (expanded) copy of it"""
+    names = {}
+    for n in ast.walk(fn):
+        if isinstance(n, ast.Subscript) and isinstance(n.ctx, ast.Load) and isinstance(n.value, ast.Name) and "str(" in u(n.slice):
+            names[n.value.id] = names.get(n.value.id, 0) + 1
+    if "kwargs" in names or not names:
+        return "kwargs"
+    return max(names, key=names.get)
+
+
 def lookup_sites(fn):
     """subscript loads kwargs[str(p)] (value lookups by parameter name)"""
+    VM = value_mapping(fn)
     out = []
     for n in walk_shallow(fn):
         pass
     # keys that come from iterating the mapping itself cannot be missing
     own_keys = set()
     for n in ast.walk(fn):
-        if isinstance(n, (ast.For, ast.comprehension)) and " ".join(u(n.iter).split()) in ("kwargs", "kwargs.items()", "kwargs.keys()", "list(kwargs)", "list(kwargs.items())", "sorted(kwargs)"):
+        if isinstance(n, (ast.For, ast.comprehension)) and " ".join(u(n.iter).split()) in [x.replace("kwargs", VM) for x in ("kwargs", "kwargs.items()", "kwargs.keys()", "list(kwargs)", "list(kwargs.items())", "sorted(kwargs)")]:
             t = n.target.elts[0] if isinstance(n.target, ast.Tuple) and "items" in u(n.iter) else n.target
             if isinstance(t, ast.Name):
                 own_keys.add(t.id)
     for n in ast.walk(fn):
-        if isinstance(n, ast.Subscript) and isinstance(n.ctx, ast.Load) and u(n.value) == "kwargs" and not (isinstance(n.slice, ast.Name) and n.slice.id in own_keys):
+        if isinstance(n, ast.Subscript) and isinstance(n.ctx, ast.Load) and u(n.value) == VM and not (isinstance(n.slice, ast.Name) and n.slice.id in own_keys):
             out.append(n)
     return out
 
@@ -213,6 +225,28 @@ def c04_7(rep, ix):
                     elif nt == tgt and any(x in et for x in (".flat", ".ravel()", ".flatten()", ".reshape(-1)")) and "order=" not in et:
                         verdict, why = True, "row-major indices paired with the row-major flattening"
     if verdict is None:
+        # written as two nested loops: for i, row in enumerate(<value>): for j, val in enumerate(row): M[<name>_<i>_<j>] = val
+        for n in ast.walk(l):
+            if isinstance(n, ast.Assign) and len(n.targets) == 1 and isinstance(n.targets[0], ast.Subscript) and isinstance(n.targets[0].value, ast.Name):
+                nt = name_template(n.targets[0].slice, n)
+                if nt is None:
+                    continue
+                encl = [x for x in ast.walk(l) if isinstance(x, ast.For) and x is not l and any(y is n for y in ast.walk(x))]
+                encl.sort(key=pos)
+                if len(encl) == 2 and all(isinstance(x.iter, ast.Call) and u(x.iter.func) == "enumerate" and len(x.iter.args) == 1 and isinstance(x.target, ast.Tuple) and len(x.target.elts) == 2 for x in encl):
+                    i_, row = u(encl[0].target.elts[0]), u(encl[0].target.elts[1])
+                    j_, val = u(encl[1].target.elts[0]), u(encl[1].target.elts[1])
+                    where = n
+                    ok = source(encl[0].iter.args[0]) and u(encl[1].iter.args[0]) == row and nt == (i_, j_) and u(n.value) == val
+                    verdict, why = ok, "key %s over rows `%s`, columns `%s`, value `%s`" % (nt, u(encl[0].iter), u(encl[1].iter), u(n.value))
+                elif len(encl) == 1 and isinstance(encl[0].iter, ast.Call) and u(encl[0].iter.func) in ("np.ndindex", "numpy.ndindex") and isinstance(encl[0].target, ast.Tuple) and len(encl[0].target.elts) == 2:
+                    i_, j_ = u(encl[0].target.elts[0]), u(encl[0].target.elts[1])
+                    valt = " ".join(u(n.value).split())
+                    base = valt.split("[")[0]
+                    where = n
+                    ok = nt == (i_, j_) and valt in ("%s[%s][%s]" % (base, i_, j_), "%s[%s, %s]" % (base, i_, j_)) and source(base)
+                    verdict, why = ok, "key %s, value `%s`" % (nt, valt)
+    if verdict is None:
         raise Inconclusive("__call__: expansion of an array value into element parameters not recognised")
     rep.check(verdict, R, ix.site(f, where), "element parameter <p>_<i>_<j> receives element (i, j) of the value passed for <p>", why, key="array value")
 
@@ -262,7 +296,7 @@ def c04_4(rep, ix, sites):
             bound |= {x.id for x in ast.walk(s2) if isinstance(x, ast.Name) and isinstance(x.ctx, ast.Store)} - {"TARGET"}
         shapes.append((tuple(nrm.alpha(prep, bound)), subj, tr))
     want = tuple(nrm.alpha_of_source("par = list(X.free_symbols)\nfunc = sym.lambdify(par, X)\n"
-                                     "try:\n    vals = {str(p): kwargs[str(p)] for p in par}\nexcept KeyError:\n    raise ValueError('Invalid value for free parameter provided')\n"
+                                     "try:\n    vals = {str(p): %s[str(p)] for p in par}\nexcept KeyError:\n    raise ValueError('Invalid value for free parameter provided')\n" % value_mapping(fn) +
                                      "TARGET = func(**vals)", {"par", "func", "vals", "p"}))
     try_head = want[2][:want[2].index(" except")]
     canon = None
